@@ -6,7 +6,9 @@
 (*                                                                         *)
 (*   calls : new (implicit), setup(problem P1|P2, checker V1|V2),          *)
 (*           set_problem_definition(P1|P2) and construct_roadmap (PRM      *)
-(*           only), solve                                                  *)
+(*           only), solve (with a time limit that lasts, or one that runs  *)
+(*           out during the call), assignment of the planner's public      *)
+(*           parameter fields (step, goal bias, radius)                    *)
 (*   faults: the uniform / goal sampler fails at its k-th call; goal bias  *)
 (*           outside [0,1] (negative, > 1, NaN); an empty start list       *)
 (*                                                                         *)
@@ -43,13 +45,15 @@ VARIABLES pd,       \* installed problem 0/1/2
                     \* alone does not initialise a planner
           built,    \* PRM: roadmap non-empty
           phase,    \* position in the two-phase usage pattern (Shape = "twophase")
+          tuned,    \* one of the rarer calls (parameter re-assignment, a solve whose time limit runs out
+                    \* during the call) has been made: at most one per history keeps the enumeration small
           fault, res, ncalls, hist
 
-vars == <<pd, vc, inited, built, phase, fault, res, ncalls, hist>>
+vars == <<pd, vc, inited, built, phase, tuned, fault, res, ncalls, hist>>
 IsPrm == Planner = "prm"
 
 Init ==
-  /\ pd = 0 /\ vc = 0 /\ inited = FALSE /\ built = FALSE /\ phase = 0
+  /\ pd = 0 /\ vc = 0 /\ inited = FALSE /\ built = FALSE /\ phase = 0 /\ tuned = FALSE
   /\ fault \in Faults /\ res = "none" /\ ncalls = 0 /\ hist = <<>>
 
 \* answers a conforming planner may give to solve in the current state
@@ -73,6 +77,7 @@ PhaseOk(name) ==
   CASE name = "setup"     -> phase \in {0, 3}
     [] name = "setpd"     -> phase = 3
     [] name = "construct" -> phase \in {1, 4}
+    [] name = "setparams" -> phase \in {1, 3}
     [] name = "solve"     -> phase \in {1, 2, 3, 4, 5, 6} /\ (IsPrm => phase # 1)
     [] OTHER -> FALSE
 PhaseNext(name) ==
@@ -94,23 +99,35 @@ Call(name, arg, v, allowed) ==
 Setup(i, k) ==
   /\ <<i, k>> \in SetupChoices
   /\ Call("setup", i, k, {"unit"})
-  /\ pd' = i /\ vc' = k /\ inited' = TRUE /\ built' = FALSE /\ UNCHANGED fault
+  /\ pd' = i /\ vc' = k /\ inited' = TRUE /\ built' = FALSE /\ UNCHANGED <<fault, tuned>>
 
 SetPd(i) ==
   /\ IsPrm /\ Call("setpd", i, 0, {"unit"})
-  /\ pd' = i /\ UNCHANGED <<vc, inited, built, fault>>
+  /\ pd' = i /\ UNCHANGED <<vc, inited, built, fault, tuned>>
 
 Construct ==
   /\ IsPrm /\ Call("construct", 0, 0, AllowedConstruct)
   \* whether milestones were found is up to the sampler: either outcome is explored
   /\ built' \in (IF ~inited THEN {built} ELSE IF built THEN {TRUE} ELSE {TRUE, FALSE})
-  /\ UNCHANGED <<pd, vc, inited, fault>>
+  /\ UNCHANGED <<pd, vc, inited, fault, tuned>>
 
-Solve ==
-  /\ Call("solve", 0, 0, AllowedSolve)
+\* short = TRUE: the time limit runs out during the call (the answer may then be "timeout" whatever
+\* the roadmap or tree holds - AllowedSolve already admits it)
+Solve(short) ==
+  /\ Call("solve", IF short THEN 1 ELSE 0, 0, AllowedSolve)
+  /\ (short => (Shape = "twophase" /\ ~tuned))
+  /\ tuned' = (tuned \/ short)
   /\ UNCHANGED <<pd, vc, inited, built, fault>>
 
-Next == (\E i \in 1 .. 2 : (\E k \in 1 .. 2 : Setup(i, k)) \/ SetPd(i)) \/ Construct \/ Solve
+\* the caller assigns the planner's public parameter fields; whatever the planner did with the old
+\* values, every later call must act on the new ones
+SetParams ==
+  /\ Shape = "twophase" /\ ~tuned
+  /\ Call("setparams", 0, 0, {"unit"})
+  /\ tuned' = TRUE
+  /\ UNCHANGED <<pd, vc, inited, built, fault>>
+
+Next == (\E i \in 1 .. 2 : (\E k \in 1 .. 2 : Setup(i, k)) \/ SetPd(i)) \/ Construct \/ (\E s \in BOOLEAN : Solve(s)) \/ SetParams
 Spec == Init /\ [][Next]_vars
 
 \* C08 at the design level: no call ever "panics", solving before setup says so, a query before
